@@ -60,7 +60,7 @@ static string lenclass(size_t n) {
 }
 
 static string describe(const Case& k) {
-  string d = fmt("case=%u kind=%s fill=%s len=%u", k.id, k.kind == 1 ? "random" : k.kind == 3 ? "concurrency-set" : "enumerated-length", FILLS[k.fill & 3], k.len);
+  string d = fmt("case=%u kind=%s fill=%s len=%u", k.id, k.kind == 1 ? "random" : k.kind == 3 ? "concurrency-set" : k.kind == 4 ? "length-ladder" : "enumerated-length", FILLS[k.fill & 3], k.len);
   if (k.len <= 80) d += " data=" + vf::hex(k.data, k.len);
   else d += " data[0..32)=" + vf::hex(k.data, 32) + "... (regenerate: vf/oracles/c10.py)";
   return d;
@@ -299,12 +299,21 @@ static void run_case(const Case& k) {
 
   size_t blocks = n / 64;
   C->cls(fmt("digest:mod64=%zu:%s", n % 64, blocks == 0 ? "0-full-blocks" : blocks == 1 ? "1-full-block" : blocks <= 4 ? "2-4-full-blocks" : "5+-full-blocks"));
-  C->cls(fmt("input:%s:%s:align%zu", k.kind == 1 ? "random" : "enumerated", FILLS[k.fill & 3], off));
+  C->cls(fmt("input:%s:%s:align%zu", k.kind == 1 ? "random" : k.kind == 4 ? "ladder" : "enumerated", FILLS[k.fill & 3], off));
   if (k.kind == 1) {
     long d = (long)((n + 32) % 64) - 32;  // distance from the nearest multiple of 64
     C->cls(fmt("random:len=64k%+ld", d));
     C->cls(fmt("random:size:%s", n < 4096 ? "<4K" : n < 65536 ? "<64K" : n < (1u << 20) ? "<1M" : "=1MiB"));
     C->count("random_input_bytes", n);
+  }
+  if (k.kind == 4) {
+    // which boundary is this size next to?  (2^k or 3*2^k, offset -2..+2)
+    const char* sc = n < 4096 ? "<4K" : n < 16384 ? "4K-16K" : n < 65536 ? "16K-64K" : n < (1u << 20) ? "64K-1M" : n == (1u << 20) ? "=1MiB" : ">1MiB";
+    C->cls(fmt("ladder:size:%s", sc));
+    for (long d = -2; d <= 2; d++) {
+      size_t b = n - d;
+      if (b && ((b & (b - 1)) == 0 || (b % 3 == 0 && ((b / 3) & (b / 3 - 1)) == 0))) C->cls(fmt("ladder:offset%+ld", d));
+    }
   }
   if (C->samples.size() < 3 && (k.id % 997 == 0 || k.kind == 1))
     C->sample(fmt("len=%u fill=%s: MD5/SHA1/SHA256 bin+hex (both overloads), crc32, fnv1a32/64 = hashlib/zlib/recurrence; %s; chains with empty pieces (nullptr / valid pointer / empty string)", k.len,
